@@ -114,14 +114,14 @@ func ruleX5(c *an.Ctx) {
 			})
 		}
 	}
-	c.Floor("X5", "loads of CallGraphStage.Disable in package syntax", nLoads, 5)
+	c.Floor("X5", "loads of CallGraphStage.Disable in package syntax", nLoads, 1)
 	var carriers []string
 	for f := range retAlias {
 		carriers = append(carriers, an.FnName(f))
 	}
 	sort.Strings(carriers)
 	c.Note("X5: functions that may return (a sub-slice of) a node's Disable list: %s", strings.Join(carriers, ", "))
-	c.Floor("X5", "functions through which a node's Disable list flows", len(carriers), 3)
+	c.Floor("X5", "functions through which a node's Disable list flows", len(carriers), 1)
 	nApp := 0
 	for _, fn := range fns {
 		an.Instrs(fn, func(in ssa.Instruction) {
